@@ -170,6 +170,7 @@ class CacheRunner:
         self.values = {s: make(n) for s, n in self.sizes.items()}
         self.mon = LruMonitor()
         self.last_put = {}
+        self.last_ref = {}  # weak-referenceable values the harness still holds: the cache may serve them via its weak references
         self.ck = [self.cache._cache_key_for_fn(self.refs.refs[f], self.refs.ah[f][a]) for f, a in KEYS]
         self.evictions = 0
         self.bypasses = 0
@@ -187,6 +188,9 @@ class CacheRunner:
             c.put(self.refs.memento(f, a, val), val, has_result=(kind == "put"))
             put_size = c._estimate_object_size(val)
             removed_ok.add(key)
+            self.last_ref.pop(key, None)
+            if kind == "put" and type(val).__name__ in ("ndarray", "DataFrame", "Series", "Index"):
+                self.last_ref[key] = val
             if put_size > c.memory_cache_bytes:
                 self.bypasses += 1
                 self.last_put.pop(key, None)
@@ -204,6 +208,8 @@ class CacheRunner:
             try:
                 got = c.read_result(self.refs.memento(f, a, None))
                 exp = self.last_put.get(key, KeyError)
+                if exp is KeyError and key in self.last_ref:
+                    exp = self.last_ref[key]  # not resident, but still alive at the caller: served by weak reference
                 if exp is KeyError or got is not exp and not domain.eq(got, exp):
                     bad.append(("cache serves a value other than the last one put",
                                 "read %s got %s expected %s" % (key, domain.describe(got, 30),
@@ -216,7 +222,7 @@ class CacheRunner:
         elif kind == "ismem":
             key = self.ck[op[1]]
             got = c.is_memoized(self.refs.refs[KEYS[op[1]][0]], self.refs.ah[KEYS[op[1]][0]][KEYS[op[1]][1]])
-            if bool(got) != (key in before):
+            if bool(got) != (key in before) and not (got and key in self.last_ref):
                 bad.append(("is_memoized disagrees with residency", "%s got %r" % (key, got)))
             if key in before:
                 self.mon.touch(key, False)
@@ -240,6 +246,7 @@ class CacheRunner:
         if kind.startswith("forget"):
             for k in removed_ok:
                 self.last_put.pop(k, None)
+                self.last_ref.pop(k, None)
                 if k in c.cache:
                     bad.append(("forgotten entry still resident", k))
             self.mon.forget(removed_ok)
@@ -264,8 +271,11 @@ class CacheRunner:
     def abstract(self):
         c = self.cache
         rank = lambda d: tuple(sorted(d, key=lambda k: d[k]))
+        # (the insertion order of the entry table is part of the state: it is invisible to callers, but code
+        # may come to depend on it)
         return (tuple((k, c.cache[k].obj_size, c.cache[k].has_value) for k in c.lru_deque if k in c.cache),
-                c.memory_usage, rank(self.mon.definite), rank(self.mon.possible))
+                c.memory_usage, rank(self.mon.definite), rank(self.mon.possible), tuple(c.cache.keys()),
+                tuple(sorted(c.refs.keys())))
 
     def snapshot(self):
         """Copies of the containers of the live cache (entries themselves are never mutated in place by
@@ -273,7 +283,7 @@ class CacheRunner:
         c = self.cache
         return (dict(c.cache), list(c.lru_deque), c.memory_usage, dict(c.refs),
                 self.mon.step, dict(self.mon.definite), dict(self.mon.possible), dict(self.last_put),
-                self.evictions, self.bypasses)
+                self.evictions, self.bypasses, dict(self.last_ref))
 
     def restore(self, snap):
         c = self.cache
@@ -284,6 +294,7 @@ class CacheRunner:
         self.mon.step, self.mon.definite, self.mon.possible = snap[4], dict(snap[5]), dict(snap[6])
         self.last_put = dict(snap[7])
         self.evictions, self.bypasses = snap[8], snap[9]
+        self.last_ref = dict(snap[10])
 
 
 def run_bfs(case, out):
